@@ -178,16 +178,22 @@ def run(tier, seed, only=None):
                                                                                      "failure%s = %.9g vs vm/yield - 1 = %.9g" % (ob.meta["idx"], real[tuple(ob.meta["idx"])], vals["vonmises"][tuple(ob.meta["idx"])] / s["yield"] - 1)))(
                             sc.real(num_inputs(ins, env))["failure"], num_inputs(ins, env))))
     # ---------------- FailureKS
-    for (ny, kind) in ([(2, "tube"), (3, "tube")] if tier == "quick" else [(2, "tube"), (3, "tube"), (2, "wingbox"), (3, "wingbox")]):
+    # the aggregation parameter the *caller asked for* is the one in the bound (None: the documented default 100), never the
+    # attribute the component derived from it
+    ks_cfg = [(2, "tube", None), (3, "tube", None), (3, "tube", 400.0), (2, "tube", 25.0)]
+    if tier != "quick":
+        ks_cfg += [(2, "wingbox", None), (3, "wingbox", None), (3, "wingbox", 1000.0), (2, "tube", 1.0)]
+    for (ny, kind, rho_req) in ks_cfg:
         s = K.surface(2, ny, True, fem_model_type=kind) if kind == "wingbox" else K.surface(2, ny, True)
-        sc = SymComp("structures.failure_ks", "FailureKS", surface=s)
+        sc = SymComp("structures.failure_ks", "FailureKS", surface=s, **({} if rho_req is None else {"rho": rho_req}))
+        rho_val = 100.0 if rho_req is None else rho_req
         rep.encode(type(sc.comp))
         ins = sc.inputs()
         vmv = ins["vonmises"]
         assume = [ge(x, 0) for x in vmv.ravel()] + [le(x, S(1e12)) for x in vmv.ravel()]
         paths = sc.sym(ins, assumptions=assume, max_paths=512)
         N = vmv.size
-        rho, sigma = S(sc.comp.rho), S(sc.comp.sigma)
+        rho, sigma = S(rho_val), S(s["yield"])
         obs = []
         for pi, p in enumerate(paths):
             ks = p.result["outputs"]["failure"].ravel()[0]
@@ -209,7 +215,7 @@ def run(tier, seed, only=None):
                     obs.append(oblig.Ob("p%d exp argument <= 0 (#%d)" % (pi, n.nid), cond=gt(n.args[0], 0), assume=pa,
                                         meta={"family": "KS exponent arguments are non-positive (no overflow)", "pi": pi}))
 
-        def ks_rp(ob, env, sc=sc, ins=ins, N=N):
+        def ks_rp(ob, env, sc=sc, ins=ins, N=N, rho_val=rho_val):
             vals = num_inputs(ins, env)
             if "exponent arguments" in ob.meta["family"]:
                 # the admissible range of the property goes up to 1e12 Pa: replay the sign violation where it matters
@@ -217,11 +223,11 @@ def run(tier, seed, only=None):
             with np.errstate(all="ignore"):
                 real = float(np.ravel(sc.real(vals)["failure"])[0])
             f = vals["vonmises"].ravel() / s["yield"] - 1
-            lo, hi = f.max(), f.max() + np.log(N) / sc.comp.rho
+            lo, hi = f.max(), f.max() + np.log(N) / rho_val
             bad = not (lo - 1e-9 <= real <= hi + 1e-9) or not np.isfinite(real)
             return bad, "KS = %.9g, max f = %.9g, max f + ln N / rho = %.9g" % (real, lo, hi)
 
-        run_obligations(rep, "FailureKS[%s,ny=%d] (%d paths)" % (kind, ny, len(paths)), obs, timeout, levels=(2,), replay=ks_rp,
+        run_obligations(rep, "FailureKS[%s,ny=%d,rho=%s] (%d paths)" % (kind, ny, "default" if rho_req is None else "%g" % rho_req, len(paths)), obs, timeout, levels=(2,), replay=ks_rp,
                         family=lambda ob: "FailureKS: " + ob.meta["family"], box=(1e6, 3e8), cut_threshold=0)
     rep.bounds = {"ny": nys, "KS N": "2..8 (quick up to 4)"}
     rep.assumptions = ["real arithmetic", "exp/log as uninterpreted atoms with instantiated monotonicity, exp(a<=0)<=1, log(a>=1)>=0 facts",
